@@ -26,6 +26,10 @@ fn main() {
     let id = args.first().map(|s| s.as_str()).unwrap_or("");
     let code = match id {
         "C01" => dispatch(props::c01::C01, &args),
+        "C02" => dispatch(props::c02::C02, &args),
+        "C03" => dispatch(props::c03::C03, &args),
+        "C04" => dispatch(props::c04::C04, &args),
+        "C05" => dispatch(props::c05::C05, &args),
         _ => {
             eprintln!("usage: vcheck <C01..C18> <quick|thorough> | vcheck <ID> --replay <file>");
             2
